@@ -723,8 +723,282 @@ fn part2(rep: &Report, thorough: bool) -> Part2 {
     st
 }
 
+
+// ---------------------------------------------------------------------------------
+// Part 3: publish faults THROUGH the real entry point. `generate_all_circuit_binaries` runs in
+// a child process (real generation, then the real commit_staging_dir with the real rename
+// behind hook H7b `verif_hooks::fs::rename`); every rename / remove_dir_all call of the commit
+// phase takes its answer from a script. This covers the composition of the generation
+// wrapper's own cleanup with the publish routine's deliberate "keep staging" outcomes.
+// ---------------------------------------------------------------------------------
+
+const PUB_RENAME_ANS: [&str; 4] = ["ok", "error", "crash-before", "crash-after"];
+const PUB_REMOVE_ANS: [&str; 4] = ["ok", "error", "crash-before", "partial+error"];
+
+/// child: `--pub-child <output> <comma separated answers>`
+fn pub_child(args: &[String]) -> ! {
+    use circuit_builder::verif_hooks::set_rename_hook;
+    let output = PathBuf::from(&args[0]);
+    let script: Vec<u32> = args.get(1).map(|s| s.split(',').filter(|x| !x.is_empty()).map(|x| x.parse().unwrap()).collect()).unwrap_or_default();
+    let pos = std::rc::Rc::new(RefCell::new(0usize));
+    let next = {
+        let pos = pos.clone();
+        let script = script.clone();
+        move |kind: &str, arity: usize| -> u32 {
+            let i = *pos.borrow();
+            *pos.borrow_mut() += 1;
+            let a = script.get(i).copied().unwrap_or(0);
+            eprintln!("VPOINT {i} {kind} {arity} {a}");
+            if a as usize >= arity {
+                eprintln!("VDIVERGED");
+                std::process::exit(4);
+            }
+            a
+        }
+    };
+    let n1 = next.clone();
+    set_rename_hook(Some(Box::new(move |src: &Path, dst: &Path| {
+        match n1("rename", PUB_RENAME_ANS.len()) {
+            0 => None,
+            1 => Some(Err(std::io::Error::other("injected rename failure"))),
+            2 => {
+                eprintln!("VCRASH");
+                std::process::abort()
+            }
+            _ => {
+                let _ = std::fs::rename(src, dst);
+                eprintln!("VCRASH");
+                std::process::abort()
+            }
+        }
+    })));
+    let n2 = next.clone();
+    set_remove_hook(Some(Box::new(move |p: &Path| {
+        match n2("remove", PUB_REMOVE_ANS.len()) {
+            0 => None,
+            1 => Some(Err(std::io::Error::other("injected remove failure"))),
+            2 => {
+                eprintln!("VCRASH");
+                std::process::abort()
+            }
+            _ => {
+                remove_half(p);
+                Some(Err(std::io::Error::other("injected partial remove failure")))
+            }
+        }
+    })));
+    let r = generate_all_circuit_binaries(&output, false, 1, None);
+    match r {
+        Ok(()) => {
+            eprintln!("VRESULT ok");
+            std::process::exit(0)
+        }
+        Err(e) => {
+            eprintln!("VRESULT err {}", format!("{e:#}").replace('\n', " "));
+            std::process::exit(3)
+        }
+    }
+}
+
+#[derive(Clone, Copy, Debug, PartialEq, Eq, Hash)]
+enum PubInit {
+    Absent,
+    DirP,
+    File,
+    DanglingSymlink,
+}
+
+struct PubExec {
+    result: String,
+    points: Vec<(String, u32, u32)>, // kind, arity, answer taken
+    tree: Tree,
+}
+
+fn pub_run(init: PubInit, script: &[u32]) -> PubExec {
+    let root = fresh_root();
+    let output = root.join(OUT_NAME);
+    match init {
+        PubInit::Absent => {}
+        PubInit::DirP => write_set(&output, &GEN_P),
+        PubInit::File => std::fs::write(&output, FILE_BODY).unwrap(),
+        PubInit::DanglingSymlink => std::os::unix::fs::symlink(root.join("nowhere"), &output).unwrap(),
+    }
+    let exe = std::env::current_exe().unwrap_or_else(|e| machinery_error(&format!("current_exe: {e}")));
+    let out = std::process::Command::new(exe)
+        .arg("--pub-child")
+        .arg(&output)
+        .arg(script.iter().map(|x| x.to_string()).collect::<Vec<_>>().join(","))
+        .stdout(std::process::Stdio::null())
+        .stderr(std::process::Stdio::piped())
+        .output()
+        .unwrap_or_else(|e| machinery_error(&format!("cannot spawn publish child: {e}")));
+    let stderr = String::from_utf8_lossy(&out.stderr).to_string();
+    if stderr.lines().any(|l| l == "VDIVERGED") {
+        machinery_error("publish child: a script prefix did not replay (uncontrolled nondeterminism)");
+    }
+    let points: Vec<(String, u32, u32)> = stderr
+        .lines()
+        .filter_map(|l| l.strip_prefix("VPOINT "))
+        .map(|l| {
+            let t: Vec<&str> = l.split(' ').collect();
+            (t[1].to_string(), t[2].parse().unwrap(), t[3].parse().unwrap())
+        })
+        .collect();
+    let crashed = stderr.lines().any(|l| l == "VCRASH");
+    let result = match out.status.code() {
+        Some(0) => "ok",
+        Some(3) => "err",
+        _ if crashed => "crash",
+        other => machinery_error(&format!("publish child died unexpectedly ({other:?}): {}", stderr.lines().rev().take(4).collect::<Vec<_>>().join(" / "))),
+    }
+    .to_string();
+    // a dangling symlink cannot be walked as a directory: snapshot treats it as a file entry
+    let tree = snapshot_lenient(&root);
+    let _ = std::fs::remove_dir_all(&root);
+    PubExec { result, points, tree }
+}
+
+/// like `snapshot`, but a symlink is recorded as a file with its link text
+fn snapshot_lenient(root: &Path) -> Tree {
+    fn walk(base: &Path, dir: &Path, out: &mut Tree) {
+        for e in std::fs::read_dir(dir).unwrap_or_else(|e| machinery_error(&format!("list {}: {e}", dir.display()))) {
+            let p = e.unwrap().path();
+            let rel = p.strip_prefix(base).unwrap().to_string_lossy().to_string();
+            let md = std::fs::symlink_metadata(&p).unwrap();
+            if md.file_type().is_symlink() {
+                out.insert(rel, Some(format!("symlink:{}", std::fs::read_link(&p).map(|x| x.display().to_string()).unwrap_or_default()).into_bytes()));
+            } else if md.is_dir() {
+                out.insert(rel, None);
+                walk(base, &p, out);
+            } else {
+                out.insert(rel, Some(std::fs::read(&p).unwrap_or_default()));
+            }
+        }
+    }
+    let mut t = Tree::new();
+    walk(root, root, &mut t);
+    t
+}
+
+/// names of the files of a top-level directory `top` (None if `top` is not a directory)
+fn files_of(t: &Tree, top: &str) -> Option<BTreeMap<String, Vec<u8>>> {
+    if t.get(top) != Some(&None) {
+        return None;
+    }
+    let prefix = format!("{top}/");
+    Some(t.iter().filter(|(k, _)| k.starts_with(&prefix)).map(|(k, v)| (k[prefix.len()..].to_string(), v.clone().unwrap_or_default())).collect())
+}
+fn is_prev(f: &BTreeMap<String, Vec<u8>>) -> bool {
+    f.len() == GEN_P.len() && GEN_P.iter().all(|(n, b)| f.get(*n).map(|x| x.as_slice()) == Some(*b))
+}
+fn is_new(f: &BTreeMap<String, Vec<u8>>, reference: &BTreeMap<String, usize>) -> bool {
+    f.len() == reference.len() && reference.iter().all(|(n, sz)| f.get(n).map(|b| b.len()) == Some(*sz))
+}
+
+fn judge_pub(init: PubInit, ex: &PubExec, reference: &BTreeMap<String, usize>) -> Vec<String> {
+    let mut bad = vec![];
+    let tops = top_levels(&ex.tree);
+    let out_files = files_of(&ex.tree, OUT_NAME);
+    let out_prev = out_files.as_ref().map(is_prev).unwrap_or(false);
+    let out_new = out_files.as_ref().map(|f| is_new(f, reference)).unwrap_or(false);
+    let any_prev = tops.iter().any(|t| files_of(&ex.tree, t).map(|f| is_prev(&f)).unwrap_or(false));
+    let any_new = tops.iter().any(|t| files_of(&ex.tree, t).map(|f| is_new(&f, reference)).unwrap_or(false));
+    if let Some(f) = &out_files {
+        if !out_prev && !out_new {
+            bad.push(format!("the output path holds neither the complete previous set nor the complete new set: {:?}", f.keys().collect::<Vec<_>>()));
+        }
+    }
+    if init == PubInit::DirP && !out_prev && !out_new && !(any_prev && any_new) {
+        bad.push(format!("the previous set is no longer at the output path, the new set is not live, and not both copies survive on disk (previous somewhere: {any_prev}, new somewhere: {any_new}); top-level entries {tops:?}"));
+    }
+    if init != PubInit::DirP && ex.result == "err" && !out_new && !any_new && ex.points.iter().any(|p| p.2 != 0) {
+        // publish failed after a complete stage existed: with no previous set the staged set is the only copy
+        bad.push(format!("publishing failed and the freshly built set is gone (no previous output existed); top-level entries {tops:?}"));
+    }
+    if ex.result != "crash" && (ex.result == "ok") != out_new {
+        bad.push(format!("the call returned {} but the new set is{} live at the output path", ex.result, if out_new { "" } else { " not" }));
+    }
+    bad
+}
+
+struct Part3 {
+    runs: u64,
+    answers: u64,
+    shapes: BTreeSet<u64>,
+}
+
+fn part3(rep: &Report, thorough: bool) -> Part3 {
+    let mut st = Part3 { runs: 0, answers: 0, shapes: BTreeSet::new() };
+    // reference: one fault-free run tells what the complete new set looks like
+    let r0 = pub_run(PubInit::Absent, &[]);
+    if r0.result != "ok" {
+        machinery_error("fault-free generation through the entry point failed");
+    }
+    let reference: BTreeMap<String, usize> = files_of(&r0.tree, OUT_NAME).unwrap_or_default().into_iter().map(|(k, v)| (k, v.len())).collect();
+    if !reference.contains_key("config.json") {
+        machinery_error("reference generation has no config.json");
+    }
+    let inits: Vec<PubInit> = if thorough { vec![PubInit::DirP, PubInit::Absent, PubInit::File, PubInit::DanglingSymlink] } else { vec![PubInit::DirP, PubInit::Absent] };
+    let par = 6;
+    for init in inits {
+        // wave-parallel exploration of the complete answer tree (quick: at most 2 non-default answers)
+        let bound = if thorough { usize::MAX } else { 2 };
+        let mut wave: Vec<Vec<u32>> = vec![vec![]];
+        while !wave.is_empty() {
+            let mut next: Vec<Vec<u32>> = Vec::new();
+            for chunk in wave.chunks(par) {
+                let rs: Vec<PubExec> = std::thread::scope(|s| {
+                    let hs: Vec<_> = chunk.iter().map(|sc| s.spawn(move || pub_run(init, sc))).collect();
+                    hs.into_iter().map(|h| h.join().unwrap_or_else(|_| machinery_error("publish runner thread panicked"))).collect()
+                });
+                for (sc, ex) in chunk.iter().zip(rs.iter()) {
+                    st.runs += 1;
+                    rep.eval(1);
+                    st.answers += ex.points.len() as u64;
+                    let taken: Vec<u32> = ex.points.iter().map(|p| p.2).collect();
+                    if taken.len() < sc.len() || taken[..sc.len()] != sc[..] {
+                        machinery_error("publish child did not replay its script prefix");
+                    }
+                    let names: Vec<String> = top_levels(&ex.tree).iter().map(|n| role(n)).collect();
+                    st.shapes.insert(hash64(&(format!("{init:?}"), ex.result.clone(), names)));
+                    if taken.iter().any(|&a| a != 0) {
+                        rep.distinct(hash64(&(format!("{init:?}"), &taken)));
+                    }
+                    let bad = judge_pub(init, ex, &reference);
+                    if !bad.is_empty() {
+                        let script_txt: Vec<String> = ex.points.iter().map(|(k, _, a)| format!("{k}:{}", if k == "rename" { PUB_RENAME_ANS[*a as usize] } else { PUB_REMOVE_ANS[*a as usize] })).collect();
+                        rep.violation(
+                            &format!("publish-entry:{init:?}:{}", script_txt.join(">")),
+                            &format!("generate_all_circuit_binaries with publish faults [{}] from initial state {init:?}: {}", script_txt.join(", "), bad.join(" | ")),
+                            json!({"initial_state": format!("{init:?}"), "script": script_txt, "result": ex.result, "final_top_level": top_levels(&ex.tree)}),
+                        );
+                    }
+                    let devs: usize = taken.iter().filter(|&&a| a != 0).count();
+                    for i in sc.len()..ex.points.len() {
+                        let before: usize = taken[..i].iter().filter(|&&a| a != 0).count();
+                        if before + 1 > bound {
+                            continue;
+                        }
+                        for alt in 1..ex.points[i].1 {
+                            let mut p = taken[..i].to_vec();
+                            p.push(alt);
+                            next.push(p);
+                        }
+                    }
+                    let _ = devs;
+                }
+            }
+            wave = next;
+        }
+    }
+    st
+}
+
 fn main() {
     let args: Vec<String> = std::env::args().collect();
+    if let Some(i) = args.iter().position(|a| a == "--pub-child") {
+        pub_child(&args[i + 1..]);
+    }
     if let Some(i) = args.iter().position(|a| a == "--gen-child") {
         gen_child(&args[i + 1..]);
     }
@@ -735,6 +1009,10 @@ fn main() {
 
     let p1 = part1(&rep);
     let p2 = part2(&rep, thorough);
+    let p3 = part3(&rep, thorough);
+    rep.extra("entry_point_publish_fault_runs", json!(p3.runs));
+    rep.extra("entry_point_publish_injected_answers", json!(p3.answers));
+    rep.extra("entry_point_publish_distinct_final_shapes", json!(p3.shapes.len()));
 
     let states = p1.shapes.len() as u64 + p2.shapes.len() as u64;
     rep.extra("states", json!(states));
@@ -752,7 +1030,7 @@ fn main() {
         "alphabet",
         json!({"rename": RENAME_ANS, "remove_dir_all": REMOVE_ANS, "stage hook": ["ok", "error", "crash (process abort)"], "initial states": ["output absent", "output = directory P (2 files)", "output = regular file"]}),
     );
-    rep.rule("part 1: every answer script of the choice tree over all rename / remove_dir_all calls of commit_staging_dir_impl (answers: ok, error, crash-before, crash-after; removes also partial+error, partial+crash), unbounded number of faults, from 3 initial states, on real directories; part 2: generate_all_circuit_binaries in a child process with the stage hook answering ok / error / crash at every stage boundary (a fault ends the run, so the answer tree of a configuration is enumerated completely). distinct_nontrivial = distinct (initial state or configuration, answer script) containing at least one injected fault or crash");
+    rep.rule("part 3: the same answer tree (rename: ok/error/crash-before/crash-after; remove: ok/error/crash-before/partial+error) driven THROUGH generate_all_circuit_binaries in child processes (real generation, real commit, hook H7b on the real rename), from output=previous set / absent (thorough: also regular file, dangling symlink; quick bounds the script to 2 faults); part 1: every answer script of the choice tree over all rename / remove_dir_all calls of commit_staging_dir_impl (answers: ok, error, crash-before, crash-after; removes also partial+error, partial+crash), unbounded number of faults, from 3 initial states, on real directories; part 2: generate_all_circuit_binaries in a child process with the stage hook answering ok / error / crash at every stage boundary (a fault ends the run, so the answer tree of a configuration is enumerated completely). distinct_nontrivial = distinct (initial state or configuration, answer script) containing at least one injected fault or crash");
     rep.assume("a crash inside the publish routine is a panic out of the injected call (caught by the harness); unwinding would run destructors, the routine holds no guard objects. A crash during generation is a real process abort of a child process");
     rep.assume("fault model: an erroring rename/remove did not perform its operation (removes may also have removed half of the tree); rename itself is atomic (no half-renamed directory), as on a POSIX filesystem");
     rep.assume("local filesystem races and symlinks are out of scope (the crate's stated trust boundary)");
